@@ -8,8 +8,10 @@ import os, sys, json, subprocess, glob, hashlib, fcntl, time, shutil
 HERE = os.path.dirname(os.path.abspath(__file__))
 VERIF = os.path.dirname(HERE)
 REPO = os.environ.get('VERIF_REPO', '/repo')
-WORK = os.path.join(VERIF, '.work')
-CACHE = os.path.join(VERIF, '.cache')
+# a scratch tree (VERIF_REPO, used by the seed tooling) gets its own work and cache directories, so that it can run next to a check of /repo
+_TAG = '' if REPO.rstrip('/') == '/repo' else '-' + hashlib.sha256(REPO.encode()).hexdigest()[:8]
+WORK = os.path.join(VERIF, '.work' + _TAG)
+CACHE = os.path.join(VERIF, '.cache' + _TAG)
 PROBES = os.path.join(HERE, 'probes')
 
 
